@@ -1,1 +1,59 @@
-import M4riProofs.WordLemmas
+/-
+  C17 — Observers agree with the abstract matrix. All statements hold for views with ARBITRARY excess
+  bits (no padding assumption), for every shape with at least one column.
+-/
+import M4riProofs.W.Observers
+import M4riProofs.W.RowCol
+namespace M4ri.Props.C17
+open M4ri M4ri.Mzd
+
+theorem equal_spec (A B : Mzd) (hc : 0 < A.ncols) :
+    A.equal B = true ↔ A.nrows = B.nrows ∧ A.ncols = B.ncols ∧
+      ∀ i, i < A.nrows → ∀ j, j < A.ncols → A.bit i j = B.bit i j := equal_iff A B hc
+
+theorem cmp_zero_iff_equal (A B : Mzd) (hc : 0 < A.ncols) (hr : A.nrows = B.nrows) (hcols : A.ncols = B.ncols) :
+    A.cmp B = 0 ↔ A.equal B = true := cmp_eq_zero_iff A B hc hr hcols
+
+theorem cmp_antisymmetric (A B : Mzd) (hc : 0 < A.ncols) (hr : A.nrows = B.nrows) (hcols : A.ncols = B.ncols) :
+    A.cmp B = - B.cmp A := cmp_antisymm A B hc hr hcols
+
+theorem cmp_transitive (A B C : Mzd) (hc : 0 < A.ncols) (hAB : A.nrows = B.nrows) (hAB' : A.ncols = B.ncols)
+    (hBC : B.nrows = C.nrows) (hBC' : B.ncols = C.ncols) (h1 : A.cmp B ≤ 0) (h2 : B.cmp C ≤ 0) :
+    A.cmp C ≤ 0 := cmp_trans_le A B C hc hAB hAB' hBC hBC' h1 h2
+
+theorem cmp_transitive_strict (A B C : Mzd) (hc : 0 < A.ncols) (hAB : A.nrows = B.nrows) (hAB' : A.ncols = B.ncols)
+    (hBC : B.nrows = C.nrows) (hBC' : B.ncols = C.ncols) (h1 : A.cmp B < 0) (h2 : B.cmp C < 0) :
+    A.cmp C < 0 := cmp_trans_lt A B C hc hAB hAB' hBC hBC' h1 h2
+
+theorem is_zero_spec (A : Mzd) (hc : 0 < A.ncols) :
+    A.isZero = true ↔ ∀ i, i < A.nrows → ∀ j, j < A.ncols → A.bit i j = false := isZero_iff A hc
+
+/-- pivot search fails exactly on a zero region -/
+theorem find_pivot_none (A : Mzd) (sr sc : Nat) :
+    A.findPivot sr sc = none ↔ ∀ i, sr ≤ i → i < A.nrows → ∀ j, sc ≤ j → j < A.ncols → A.bit i j = false :=
+  findPivot_eq_none_iff A sr sc
+
+/-- otherwise it reports a one in the left-most non-zero column of the region -/
+theorem find_pivot_some (A : Mzd) (sr sc r c : Nat) (h : A.findPivot sr sc = some (r, c)) :
+    sr ≤ r ∧ r < A.nrows ∧ sc ≤ c ∧ c < A.ncols ∧ A.bit r c = true ∧
+      (∀ i j, sr ≤ i → i < A.nrows → sc ≤ j → j < c → A.bit i j = false) ∧
+      (∀ i, sr ≤ i → i < r → A.bit i c = false) := findPivot_eq_some A sr sc r c h
+
+/-- the zero-row query returns the index one past the last non-zero row -/
+theorem first_zero_row_spec (A : Mzd) (hc : 0 < A.ncols) (r : Nat) :
+    A.firstZeroRow = r ↔ r ≤ A.nrows ∧
+      (∀ i, r ≤ i → i < A.nrows → ∀ j, j < A.ncols → A.bit i j = false) ∧
+      (r = 0 ∨ ∃ j, j < A.ncols ∧ A.bit (r - 1) j = true) := firstZeroRow_eq_iff A hc r
+
+/-- reading an entry returns what was last written there -/
+theorem read_after_write (M : Mzd) (r c : Nat) (v : Bool) (h : M.WF) (hr : r < M.nrows) (hc : c < M.ncols) :
+    (M.writeBit r c v).readBit r c = v := readBit_writeBit M r c v h hr hc
+
+/-- and writing changes exactly that entry -/
+theorem write_bit_frame (M : Mzd) (r c : Nat) (v : Bool) (h : M.WF) (hr : r < M.nrows) (hc : c < M.ncols)
+    (i j : Nat) : (M.writeBit r c v).bit i j = if i = r ∧ j = c then v else M.bit i j :=
+  writeBit_bit M r c v h hr hc i j
+
+example : 0 < exM.ncols := by decide
+
+end M4ri.Props.C17
